@@ -324,7 +324,8 @@ def parse_out(out):
 
 
 def chunks(b):
-    return "[L %s]" % cl(b)
+    # long list literals overflow Coq's stack: pieces of at most 1500 bytes
+    return "[" + "; ".join("L %s" % cl(b[i:i + 1500]) for i in range(0, len(b), 1500)) + "]"
 
 
 def case_line(c):
@@ -687,7 +688,7 @@ def rknobs(r):
 
 
 def gen(r, tier):
-    ncases, per = {"quick": (100, 40), "search": (160, 40), "thorough": (360, 60)}[tier]
+    ncases, per = {"quick": (100, 40), "search": (160, 40), "thorough": (1100, 60)}[tier]
     lim = LIM_MS[tier]
     cases = []
     cap = captured(dict(frag=64, a=2, m=2, j=1, rel=1))
